@@ -60,11 +60,11 @@ pub fn run(prop: &str, tier: Tier, seed: u64, replay: Option<&str>) -> i32
     if let Some(p) = ["C01","C02","C03","C04","C05","C06","C07","C08","C09","C11","C12","C13","C15","C18"].iter().find(|p| **p == prop)
     {
         let (engine, mut rule) = tree_engine(p).unwrap();
-        // C01, C06, C07, C08 and C13 speak about reactors in general, and world reactors are reactors: one case in eight
+        // C01, C06, C07, C08, C13 and C18 speak about reactors in general, and world reactors are reactors: one case in eight
         // goes to the world-reactor engine, judged by the part of its oracle the property shares
         let side = crate::wr16::WrEngine{ prop: p };
         let both = Composite{ main: &engine, side: &side, every: 8 };
-        let with_side = ["C01", "C06", "C07", "C08", "C13"].contains(p);
+        let with_side = ["C01", "C06", "C07", "C08", "C13", "C18"].contains(p);
         if with_side
         {
             rule.push_str("; one generated case in eight is a world-reactor history (engine wr16: add / partial and full remove / trigger / despawn over WorldReactors and EntityWorldReactors) judged by the part of its oracle this property shares (wr16::relevant_to) and not counted as non-trivial");
